@@ -107,6 +107,32 @@ def listen_ports_impl(entries: List[Any]) -> List[int]:
     return sorted(sw.listen_on_ports)
 
 
+def gen_listen_probe(rng: Rng, lookup: Dict[str, int]) -> List[Any]:
+    """For the CROSS-PROCESS probe of `_set_software_listen_on_ports`: mostly port NAMES (strings: the order in which their set hands
+    them out depends on PYTHONHASHSEED), 3-8 distinct, sometimes the name of port 0 (`NONE`: falsy, dropped by the code), sometimes an
+    int. (Entries that are neither a port name nor a port number never reach the loop: the software's ConfigSchema rejects them first.)"""
+    names = [n for n, v in lookup.items() if v > 0]
+    out: List[Any] = rng.shuffle(names)[:rng.range(3, 8)]
+    zero = [n for n, v in lookup.items() if v == 0]
+    if zero and rng.chance(1, 3):
+        out.insert(rng.below(len(out) + 1), zero[0])
+    if rng.chance(1, 3):
+        out.insert(rng.below(len(out) + 1), rng.range(1, 65535))
+    return out
+
+
+def listen_ports_probe(entries: List[Any]) -> Dict[str, Any]:
+    """what `from_config` leaves in `listen_on_ports` (value, container type, number of entries), or the exception it raised"""
+    cfg = copy.deepcopy(ONE_NODE)
+    cfg["simulation"]["network"]["nodes"][0]["services"][0]["options"] = {"listen_on_ports": list(entries)}
+    try:
+        game = scen.make_game(cfg)
+    except Exception as e:  # compared across processes like any other answer
+        return {"raised": type(e).__name__}
+    sw = game.simulation.network.get_node_by_hostname("pc_a").software_manager.software["dns-server"]
+    return {"ports": sorted(sw.listen_on_ports), "type": type(sw.listen_on_ports).__name__, "n": len(sw.listen_on_ports)}
+
+
 def ports_line(entries: List[Any], lookup: Dict[str, int]) -> str:
     """The model iterates `set(entries)`: duplicates collapse first (an int and a name are different elements)."""
     seen, ws = [], []
